@@ -851,38 +851,36 @@ Section WithVars.
              (* `self` inside the methods is the instance that is being created (since 6a11bb8) *)
              self_ty <- var_ty self_var ;;
              unify G sp self_ty given_blob ;;;
-             ret0 <- push_type HUnknown ;;
-             iterM (fun fe : string * expr =>
-                      '(iret, ety) <- r_expr R (snd fe) ctx ;;
-                      unify_option G sp (Some ret0) iret ;;;
-                      match flookup (fst fe) given with
-                      | Some (_, ft) => unify G (expr_span (snd fe)) ety ft ;;; ret tt
-                      | None => panic PFieldIndex
-                      end) fields ;;;
+             (* the literal returns from the function only if one of its parts does (since 8f8db35; before, a made-up
+                unknown return type made `fn -> int do l := [1] end` count as returning) *)
+             ret0 <- foldM (fun (acc : option tyid) (fe : string * expr) =>
+                              '(iret, ety) <- r_expr R (snd fe) ctx ;;
+                              acc' <- unify_option G sp acc iret ;;
+                              match flookup (fst fe) given with
+                              | Some (_, ft) => unify G (expr_span (snd fe)) ety ft ;;; ret acc'
+                              | None => panic PFieldIndex
+                              end) fields None ;;
              u <- unify G sp given_blob blob_ty ;;
-             ret (Some ret0, u)
+             ret (ret0, u)
            end
          | HExtBlob _ _ _ _ _ => fail KExternBlobInstance sp
          | _ => fail KViolating sp
          end
        | ECollection CTuple values sp =>
-         ret0 <- push_type HUnknown ;;
-         tys <- mapM (fun v =>
-                        '(iret, t) <- r_expr R v ctx ;;
-                        unify_option G sp (Some ret0) iret ;;;
-                        ret t) values ;;
+         '(ret0, tys) <- foldM (fun (acc : option tyid * list tyid) (v : expr) =>
+                                  '(iret, t) <- r_expr R v ctx ;;
+                                  r' <- unify_option G sp (fst acc) iret ;;
+                                  ret (r', snd acc ++ [t])) values (None, []) ;;
          t <- push_type (HTuple tys) ;;
-         ret (Some ret0, t)
+         ret (ret0, t)
        | ECollection CList values sp =>
          inner <- push_type HUnknown ;;
-         ret0 <- push_type HUnknown ;;
-         iterM (fun v =>
-                  '(eret, et) <- r_expr R v ctx ;;
-                  unify G sp inner et ;;;
-                  unify_option G sp (Some ret0) eret ;;;
-                  ret tt) values ;;;
+         ret0 <- foldM (fun (acc : option tyid) (v : expr) =>
+                          '(eret, et) <- r_expr R v ctx ;;
+                          unify G sp inner et ;;;
+                          unify_option G sp acc eret) values None ;;
          t <- push_type (HList inner) ;;
-         ret (Some ret0, t)
+         ret (ret0, t)
        | EFloat _ _ => t <- push_type HFloat ;; ret (None, t)
        | EInt _ _ => t <- push_type HInt ;; ret (None, t)
        | EStr _ _ => t <- push_type HStr ;; ret (None, t)
